@@ -149,6 +149,7 @@ class ListE:
     stages: Tuple[str, ...] = ()      # pipeline description
     spec: Any = None                  # slice spec
     tuple_: bool = False
+    dirty: bool = False               # snapshot of an element's children taken before the element was modified
     distinct: bool = False            # elements are pairwise distinct nodes (established by 'x in L' tests before append)
     born: int = 0
 
@@ -352,7 +353,7 @@ class State:
                      (e.succ[0], (mapping[e.succ[1]] if e.succ[1] in mapping else skey(e.succ[1])) if e.succ[1] else None, e.succ[2]) if e.succ else None)
             elif t is ListE:
                 k = ('l', e.kind, e.lo, e.hi, skey(e.parent) if e.parent else None, e.tag,
-                     tuple([vkey(x) for x in e.items]), skey(e.src) if e.src else None, e.ordered, e.spec, e.distinct)
+                     tuple([vkey(x) for x in e.items]), skey(e.src) if e.src else None, e.ordered, e.spec, e.distinct, e.dirty)
             elif t is ObjE:
                 k = ('o', e.cls, tuple([(a, vkey(b)) for a, b in e.fields]))
             elif t is DictE:
@@ -390,6 +391,8 @@ class State:
             elif name == 'itlog':
                 mk.append((name, tuple(sorted((a, tuple((r[0],) + tuple(cs(x) if x is not None else None for x in r[1:]) for r in b))
                                               for a, b in v.items()))))
+            elif name == 'livedepth':
+                mk.append((name, tuple(sorted((a, cs(b)) for a, b in v.items()))))
             elif name == 'sym:fromlist':
                 mk.append((name, tuple(sorted(((cs(a), cs(b)) for a, b in v.items() if a in mapping), key=repr))))
             elif name.startswith('sym:'):
